@@ -190,15 +190,17 @@ def run(p, report, tier):
     sp = p.get_class("SklearnClassifier").methods["predict_proba"]
     okm = False
     why = "no column scatter found"
-    for n in ast.walk(sp.node):
+    from ..astutil import inline_temporaries
+    spn = inline_temporaries(sp.node)
+    for n in ast.walk(spn):
         if isinstance(n, ast.Assign) and isinstance(n.targets[0], ast.Subscript):
             sl = n.targets[0].slice
             if isinstance(sl, ast.Tuple) and len(sl.elts) == 2 and isinstance(sl.elts[1], ast.Name):
                 col = sl.elts[1].id
-                for d in ast.walk(sp.node):
+                for d in ast.walk(spn):
                     if isinstance(d, ast.Assign) and any(isinstance(t, ast.Name) and t.id == col for t in d.targets):
                         txt = ast.unparse(d.value)
-                        if "searchsorted" in txt and "self.classes_" in txt and ("est_classes" in txt or "estimator_.classes_" in txt):
+                        if "searchsorted" in txt and "self.classes_" in txt and "estimator_.classes_" in txt:
                             okm = True
                             why = f"columns `{col}` = {txt[:70]}"
     report.add("R11.4", sp.qual, "estimator columns re-mapped onto classes_", f"{sp.file}:{sp.node.lineno}", okm, detail=why)
@@ -247,9 +249,14 @@ def run(p, report, tier):
             da = DefiniteAssignment(_it(f.node)).run()
             reports = dict(da.reports)
             exc = None
-            if f.qual == "AnnotatorEnsembleClassifier.predict_proba" and "P" in reports:
-                exc = "voting is validated to 'soft'/'hard' in fit and check_is_fitted dominates"
-                reports.pop("P")
+            for nm in list(reports):
+                # keyed by file + canonical binding statements (independent of local / function names)
+                if (f.file, c01.binding_key(f.node, nm)) == (
+                        "skactiveml/classifier/multiannotator/_annotator_ensemble_classifier.py",
+                        ("v1 /= np.sum(v1, axis=1, keepdims=True)", "v1 = np.array([v2.predict_proba(v3) for v4, v2 in self.estimators_])",
+                         "v1 = np.sum(v1, axis=0)", "v1 = v2 / np.sum(v2, axis=1, keepdims=True)")):
+                    exc = "voting is validated to 'soft'/'hard' in fit and check_is_fitted dominates"
+                    reports.pop(nm)
             report.add("R1.7", f.qual, "all locals bound before use", f"{f.file}:{f.node.lineno}", not reports,
                        detail=("; ".join(f"{k} unbound" for k in reports)) or (("infeasible residual: " + exc) if exc else ""))
     report.assumptions += ["finiteness, non-negativity and row sums equal to one as numbers are not decided",
